@@ -74,7 +74,8 @@ def _concat(repo, col):
         st = _stores(ex, "nodes")
         if not st:
             raise AnalysisError(f"{cls}.__init__ no longer assigns self.nodes")
-        v = st[0].value
+        from sa.terms import fuse_comprehensions as _fuse
+        v = _fuse(st[0].value)        # a list of the tables filled in a loop is the comprehension
         ok = v.op == "mcall" and v.name == "concat" and v.args[1].op == "comp" and v.args[1].args[0].op == "attr" and \
             v.args[1].args[0].name == "nodes" and v.args[1].args[0].args[0].op == "elem"
         ig = v.kw.get("ignore_index") if v.op == "mcall" else None
